@@ -62,6 +62,12 @@ func (c18) Gen(r *sim.Rand, c *sim.Case, tier string) {
 	}
 	g.RectTablesOnly, g.NoCellList, g.WellFormedMath, g.NoTableTemplates, g.NoJPGName = true, true, true, true, true
 	var ops []sim.Op
+	if r.Chance(0.2) {
+		// the template is a package written by another producer (its styles, theme, settings, numbering ... parts hold
+		// content the library never generates): opened, given placeholders, rendered
+		ops = append(ops, sim.Op{K: "foreign", I: []int{int(r.Uint64() >> 40), r.Intn(1 << 16), r.Intn(3)}})
+		c.Cfg["foreign_base"] = 1
+	}
 	ops = append(ops, g.DocOps(0, r.Range(0, 6))...)
 	fmtOp := func(k string, i []int, text string) sim.Op {
 		op := sim.Op{K: k, I: append([]int{}, i...), S: []sim.Str{sim.Str(text)}}
@@ -152,6 +158,12 @@ func (c18) Gen(r *sim.Rand, c *sim.Case, tier string) {
 		for i := r.Intn(4); i > 0; i-- {
 			d.Lists["items"] = append(d.Lists["items"], map[string]any{"f1": fmt.Sprintf("thing%d", i), "qty": float64(r.Range(1, 99)), "f2": vals[r.Intn(5)]})
 		}
+	}
+	if r.Chance(0.3) {
+		// the template is a document that was saved and opened again (a template file): it carries the parts a
+		// package has on disk (a styles part among them), and the rendering must carry them unchanged too
+		ops = append(ops, sim.Op{K: "restart", I: []int{r.Intn(2), r.Intn(3)}})
+		c.Cfg["reopened_base"] = 1
 	}
 	ops = append(ops, sim.Op{K: "c18.render", S: []sim.Str{sim.Str(d.JSON())}})
 	c.Tasks = [][]sim.Op{ops}
@@ -492,6 +504,23 @@ func (c18) Exec(c *sim.Case, env *Env) []sim.Violation {
 		}
 		if hasImagePH && (n == "[Content_Types].xml" || n == "word/_rels/document.xml.rels") {
 			continue // the picture adds a relationship and maybe a content type
+		}
+		if n == "_rels/.rels" {
+			// package-level relationships: which id a relationship carries is not content (the rendering is a new package);
+			// which parts the package declares, and as what, is
+			br, _ := pb.Rels(n)
+			rels2, _ := pr.Rels(n)
+			have := map[string]bool{}
+			for _, x := range rels2 {
+				have[x.Type+"\x00"+x.Target+"\x00"+x.Mode] = true
+			}
+			for _, x := range br {
+				if !have[x.Type+"\x00"+x.Target+"\x00"+x.Mode] {
+					add("part-changed", "_rels/.rels:package-relationship-lost", fmt.Sprintf("the base package declares %s (%s); the rendered package does not", x.Target, x.Type))
+					break
+				}
+			}
+			continue
 		}
 		ca, _ := CanonXML(pb.Parts[n])
 		cb, _ := CanonXML(db)
